@@ -4,6 +4,7 @@ import ast
 from .common import *
 
 EXPLANATION = (
+    "Re-based during the build (DESIGN.md 4.31): the sync-manager table is decided by abstract execution of parse_sync_managers on 72 packed record tables (bounded). "
     "Decided: (R17.1) word/byte units of the SII reader: the 8-byte read is "
     "taken whole iff status bit 0x40 is set, otherwise 4 more bytes are "
     "read two words further and appended to the first 4; the category walk "
